@@ -128,6 +128,8 @@ func setup() {
 	if err := node.Self.SetSignatureScheme(self); err != nil {
 		panic(err)
 	}
+	// index 10: the receiving node itself (not in any pool; remote tickets may claim its id)
+	peers = append(peers, &peer{nd: node.Self.Underlying(), scheme: self, kind: 1, comment: "the receiving node itself"})
 }
 
 func peerIdx(id string) int {
@@ -234,6 +236,7 @@ func run(h hist) (observations []obs, verdicts [][]bool, sigs [][]bool, fail str
 	posted := map[[3]int64]bool{} // (round, signer, hash) of a posted ticket -> its signature really verifies
 	var made []*chain.LFBTicket   // genuine tickets posted so far
 	prevRound := h.InitRound
+	ownBlocks := map[[2]int64]bool{{h.InitRound, h.InitRound}: true} // (round, hash) of the node's own LFBs
 	for i, e := range h.Events {
 		if !(h.Prefill && i == 0 && (e.K == "remote" || e.K == "broadcast")) {
 			start()
@@ -274,6 +277,7 @@ func run(h hist) (observations []obs, verdicts [][]bool, sigs [][]bool, fail str
 			for _, b := range e.Blocks {
 				bb := block.NewBlock("", b.Round)
 				bb.Hash = hashStr(b.Hash)
+				ownBlocks[[2]int64{b.Round, int64(b.Hash)}] = true
 				bctx, bcancel := context.WithTimeout(ctx, 5*time.Second)
 				c.BroadcastLFBTicket(bctx, bb)
 				bcancel()
@@ -319,6 +323,12 @@ func run(h hist) (observations []obs, verdicts [][]bool, sigs [][]bool, fail str
 			kinds["latest-advanced"]++
 		}
 		prevRound = o.round
+		if o.origin == -1 {
+			// a ticket reported as the node's own must be one it made itself: for one of its own LFBs, signed with its key
+			if !ownBlocks[[2]int64{o.round, int64(o.hash)}] || got.SharderID != node.Self.GetKey() || !sigOK(got) {
+				set("unverified-ticket-adopted")
+			}
+		}
 		if o.origin >= 0 {
 			p := peers[o.origin]
 			valid, wasPosted := posted[[3]int64{o.round, int64(o.origin), int64(o.hash)}]
@@ -405,6 +415,10 @@ func genTicket(r *vh.Rand, cur int64) tk {
 	default:
 		t.Signer = r.Range(8, 9) // unknown
 	}
+	if r.Chance(1, 12) {
+		t.Signer = 10 // claims to come from the receiving node itself
+		t.Round = cur + int64(r.Range(1, 1000))
+	}
 	t.Sig = []string{"good", "good", "good", "good", "good", "good", "wrongkey", "tampered", "empty", "garbage", "replay", "replay", "stolen"}[r.Intn(13)]
 	if t.Sig == "replay" || t.Sig == "stolen" {
 		t.Round = cur + int64(r.Range(1, 8)) // a forged ticket claims progress
@@ -456,10 +470,10 @@ func main() {
 	setup()
 	rep := vh.NewReport("lfbticket", "C41", o)
 	rep.Rule = "random histories of 1-12 events on the real LFB ticket worker: remote batches of 1-5 tickets posted to the real handler " +
-		"(signer: current sharder 50%, current miner 20%, node of an earlier magic block 10%, unknown 20%; real ed25519 signature good 60%, " +
+		"(signer: current sharder 50%, current miner 20%, node of an earlier magic block 10%, unknown 20%, 1 in 12 claims the receiving node's own id; real ed25519 signature good 60%, " +
 		"other key / tampered / empty / garbage and a replayed earlier genuine signature of the same or of another sender on a ticket with another round and hash; rounds around the current one, 1 in 25 extreme), local kicks, own broadcasts of " +
 		"1-4 blocks, reads; self is a sharder in 3 of 4; 1 in 3 queues the first batch before the worker starts; plus all sequences over " +
-		"10 events up to a bound. Non-trivial = the handler accepted and rejected a ticket and the reported ticket advanced at least twice; distinct by full event list"
+		"11 events up to a bound. Non-trivial = the handler accepted and rejected a ticket and the reported ticket advanced at least twice; distinct by full event list"
 	cf := &vh.CasesFile{Imports: []string{"Base.Corr", "Model.LFB", "Corr.LFB"}, CaseType: "lf_case", CheckFn: "lf_check"}
 
 	handle := func(h hist, toCoq bool) {
@@ -524,11 +538,12 @@ func main() {
 	}
 	alpha := []ev{
 		{K: "remote", Tickets: []tk{{7, 1, "good", 7}}},
-		{K: "remote", Tickets: []tk{{9, 4, "good", 9}}},     // signed by a current miner
-		{K: "remote", Tickets: []tk{{8, 2, "tampered", 8}}}, // bad signature
-		{K: "remote", Tickets: []tk{{10, 8, "good", 10}}},   // unknown node
-		{K: "remote", Tickets: []tk{{12, 1, "replay", 12}}}, // an earlier genuine signature of sharder 1 on another round/hash
-		{K: "remote", Tickets: []tk{{11, 2, "stolen", 11}}}, // an earlier genuine signature of another sender
+		{K: "remote", Tickets: []tk{{9, 4, "good", 9}}},       // signed by a current miner
+		{K: "remote", Tickets: []tk{{8, 2, "tampered", 8}}},   // bad signature
+		{K: "remote", Tickets: []tk{{10, 8, "good", 10}}},     // unknown node
+		{K: "remote", Tickets: []tk{{12, 1, "replay", 12}}},   // an earlier genuine signature of sharder 1 on another round/hash
+		{K: "remote", Tickets: []tk{{11, 2, "stolen", 11}}},   // an earlier genuine signature of another sender
+		{K: "remote", Tickets: []tk{{13, 10, "garbage", 13}}}, // claims the receiving node's own id
 		{K: "kick", Round: 8},
 		{K: "broadcast", Blocks: []blk{{7, 17}}},
 		{K: "broadcast", Blocks: []blk{{10, 20}}},
